@@ -963,8 +963,11 @@ class _ProcComm2(_ProcComm):
 
     def Isend(self, buf, dest, tag=0):
         send, _recv = PIPE
-        data = np.array(buf, order="C")
-        send(("isend", data.tobytes(), int(dest), int(tag)))
+        data = np.asarray(buf)
+        if not (data.flags.c_contiguous or data.flags.f_contiguous):
+            raise ValueError("ndarray is not contiguous")    # as mpi4py
+        # the buffer's MEMORY, in memory order
+        send(("isend", data.tobytes(order="A"), int(dest), int(tag)))
         msg = _expect("req")
         return _ProcRequest(msg[1])
 
@@ -977,9 +980,11 @@ class _ProcComm2(_ProcComm):
         return _ProcRequest(msg[1], buf)
 
 
-def op_rank_exec(st, recipe, rank, iterations=1):
+def op_rank_exec(st, recipe, rank, iterations=1, f_order_inputs=False,
+                 extra_inputs=False):
     try:
-        return _rank_exec(st, recipe, rank, iterations)
+        return _rank_exec(st, recipe, rank, iterations, f_order_inputs,
+                          extra_inputs)
     except Exception as e:  # noqa: BLE001
         import traceback
         return {"raised": {"type": type(e).__name__,
@@ -988,7 +993,8 @@ def op_rank_exec(st, recipe, rank, iterations=1):
                            "tb": traceback.format_exc()[-1500:]}}
 
 
-def _rank_exec(st, recipe, rank, iterations):
+def _rank_exec(st, recipe, rank, iterations, f_order_inputs=False,
+               extra_inputs=False):
     import sys
     import types
     import pytato as pt
@@ -1012,7 +1018,9 @@ def _rank_exec(st, recipe, rank, iterations):
         monitor["shadow"] = collections.Counter()
         prgs = {pid: distrun.StubProgram(rank, p, npart, monitor)
                 for pid, p in npart.parts.items()}
-        inputs = mrecipe.rank_inputs(recipe, rank)
+        inputs = distrun.shape_inputs(mrecipe.rank_inputs(recipe, rank),
+                                      f_order=f_order_inputs,
+                                      extra=extra_inputs)
         outs = []
         for _it in range(iterations):
             out = pt.execute_distributed_partition(
